@@ -127,11 +127,12 @@ def main(argv=None):
     run.sample({"start": jobs[len(jobs) // 2][1], "history": list(jobs[len(jobs) // 2][0])})
     run.sample({"start": jobs[-1][1], "history": list(jobs[-1][0])})
     run.cov.update({
-        "evaluations": len(jobs), "distinct_nontrivial": values,
+        "evaluations": len(jobs), "distinct_nontrivial": sum(1 for r in res if r["values"]), "value_comparisons": values,
         "rule": "all histories of length %d over the alphabet {%d mutators} U {evaluate each of %d evaluators} U {evaluate another "
                 "live model}, from a fresh SIR model and from one whose evaluators were all compiled once%s; every evaluation "
                 "inside a history is compared with the same evaluator on a fresh object that received only the mutators of the "
-                "prefix. distinct_nontrivial = comparisons in well-defined states (a value, not an exception, on both sides)" % (
+                "prefix. distinct_nontrivial = distinct histories with at least one comparison in a well-defined state (a value, not "
+                "an exception, on both sides)" % (
                     3, len(muts), len(evals), ("; from the compiled start only [mutator, any, evaluation]" if quick else "; plus all of length 4 with five evaluators as operations") + "; plus every two-phase history [mutator, evaluation, mutator, evaluation]"),
         "states": len(states), "transitions": sum(len(j[0]) for j in jobs), "traces_validated_against_impl": len(jobs),
         "comparisons": compared, "comparisons_in_ill_defined_states": ill, "depth_completed": depth,
